@@ -89,6 +89,9 @@ def alphabet(r, base):
     A.append(T.Entry("link", b"b", target=b"aaaaaaaa"))                              # 50
     A.append(T.Entry("link", b"b/sub/c", target=out_abs + b"/x"))                    # 51
     A.append(T.Entry("link", b"aaaaaaaa", target=b"../outside"))                     # 52
+    # not an entry: an end-of-archive marker and 21 bytes of padding (a failed header read consumes 22 bytes) – whatever follows lies
+    # BEHIND the end of the archive and must never be extracted, also not after the deferred links have been made
+    A.append(T.Entry("raw", b"", data=bytes(22)))                                    # 53
     # every file member records a modification time (a metadata call is one more thing that can land outside)
     for i, e in enumerate(A):
         if e.kind == "file" and not e.mtime:
@@ -102,6 +105,9 @@ def build(r, base, idxs, level, style):
     chosen = [ents[i % len(ents)] for i in idxs]
     out = b""
     for e in chosen:
+        if e.kind == "raw":
+            out += e.data
+            continue
         e.level = level
         if style == 1 and e.kind != "link":
             e = T.Entry(e.kind, b"//" + e.path if not e.path.startswith(b"/") else b"/" + e.path, e.data, e.target, e.perms, e.mtime,
@@ -116,6 +122,14 @@ def gen_cases(ctx, n):
     for i in range(n):
         k = r.randrange(1, 8)
         idxs = [r.randrange(128) for _ in range(k)]
+        if i % 6 == 5:
+            # a dangerous link, the end of the archive, then a member whose path leads through that link (behind the end)
+            al = alphabet(r, b"/X")
+            raw = next(j for j, e in enumerate(al) if e.kind == "raw")
+            pairs = [(a, b) for a, x in enumerate(al) if x.kind == "link" and (b".." in x.target or x.target.startswith(b"/"))
+                     for b, y in enumerate(al) if y.kind == "file" and y.path.startswith(x.path + b"/")]
+            a, b = r.choice(pairs)
+            idxs = [r.randrange(128) for _ in range(r.randrange(0, 3))] + [a, raw, b] + [r.randrange(128) for _ in range(r.randrange(0, 2))]
         level = r.choice([0, 1, 2, 2])
         style = r.choice([0, 0, 0, 1])
         opts = r.choice([["f"], ["q"], ["q1"], ["f", "i"], ["f", "w" + b"sub".hex()], ["f", "w" + b"sub/../x".hex()]])
